@@ -233,6 +233,7 @@ def run(rep, repo, tier):
     except Unknown as u:
         rep.inconclusive('C16.R3', parse_where, 'the guards of the parser.error calls can be evaluated on two-criterion valuations', got=str(u))
     check_helper(rep, repo, helper, N)
+    check_extras_isolation(rep, repo, tier)
 
     # ---- R4 ----------------------------------------------------------------------------------------------
     stability_requires_twopl(rep, repo, 'C16.R4')
@@ -400,6 +401,53 @@ def check_helper(rep, repo, helper, N, r1='C16.R1', r3='C16.R3', r6='C16.R6'):
         want = ('tuple', (opt, ('slice', args_, C(1), NONE))) if case == 'list' else ('tuple', (opt, NONE))
         rep.check(val == want, r6, where, ('list-valued flag keeps (criterion, arguments[1:])' if case == 'list' else 'scalar flag gives (criterion, None)'),
                   got=show(val).replace(show(b), 'it'), want=show(want).replace(show(b), 'it'), construct='extras of %s flag: %s' % (case, show(val).replace(show(b), 'it')))
+
+
+def check_extras_isolation(rep, repo, tier):
+    """R6 (consumer side): a criterion given no optional arguments must not see those of an earlier criterion.  Ordered
+    pairs (X with distinctly named extras, Y with none) are specialised; nothing in Y's iteration may mention X's extras."""
+    listy = [n for n, sp in spec.CRITERIA.items() if sp['nextras'] > 0]
+    pairs = [(x, y) for x in listy for y in listy if x != y]
+    if tier == 'quick':
+        pairs = pairs[::3]
+    where = repo.method('LP_Solver', 'run_optimisations').where
+    bad = []
+    for x, y in pairs:
+        ex = tuple(S('first%d' % i) for i in range(spec.CRITERIA[x]['nextras']))
+        try:
+            r = lpfacts.get_run(repo, False, False, [(x, ex), (y, ())])
+        except AnalysisError as u:
+            rep.inconclusive('C16.R6', where, 'ordered pair [%s, %s] is inside the interpreted fragment' % (x, y), got=str(u)[:120])
+            return
+        for ev in r.events:
+            if not ev.iters:
+                continue
+            v = ev.iters[-1].value
+            member = v[1][0][2] if (v[0] in ('tuple', 'list') and v[1] and v[1][0][0] == 'attr') else None
+            if member != y:
+                continue
+            def mentions(t):
+                # (the solver object itself carries the whole option list as constructor arguments: not a use)
+                if not isinstance(t, tuple) or not t:
+                    return False
+                if isinstance(t[0], str):
+                    if t[0] == 'obj':
+                        return False
+                    if t[0] == 'sym' and t[1].startswith('first'):
+                        return True
+                    return any(mentions(z) for z in t[1:] if isinstance(z, tuple))
+                return any(mentions(z) for z in t if isinstance(z, tuple))
+            for k_, t in ev.eff.__dict__.items():
+                if isinstance(t, tuple) and t and isinstance(t[0], str) and mentions(t):
+                    bad.append((x, y, ev))
+                    break
+    rep.count('extras_isolation_pairs', len(pairs))
+    if bad:
+        x, y, ev = bad[0]
+        rep.fail('C16.R6', ev.where, 'a criterion without optional arguments uses its documented defaults, not the arguments of an earlier criterion', got='-%s <a> <b> ... -%s <position only>: %s of %s mentions the arguments of %s' % (
+                 spec.CRITERIA[x]['dest'], spec.CRITERIA[y]['dest'], ev.kind, y, x), want='extras stay with their own criterion', construct='extras of %s leak into %s' % (x, y), loc=ev.loc)
+    else:
+        rep.ok('C16.R6', where, 'in %d ordered pairs (criterion with extras, criterion without) the second never sees the first one\'s extras' % len(pairs), got='no leak')
 
 
 def check_info_lines(rep, repo, tier):
